@@ -82,6 +82,21 @@ def special_inputs():
     out.append(("TryInto", "enum E<T, U> { A(T), B(U), C(T, U), D(U, T), E0(u8), F(u16) }"))
     out.append(("From", "enum E { A(i8), B(i16), C(i32, i64), D { x: u8, y: u16 }, #[from(skip)] S(i8) }"))
     out.append(("Display", '#[display("{_variant}")] enum E<T, U> { A(T), #[display("{_0} {_1}")] B(U, T), C }'))
+    # items of ONE derive that share their NAMES (variants, fields, types) in different orders and spellings: state keyed by a
+    # name that outlives an expansion (an interner numbering names in first-seen order, a per-name memo) makes the later
+    # item's output depend on which of the others came first
+    pools = [["Low", "Mid", "High", "Unknown"], ["Unknown", "High", "Extra"], ["high", "LOW", "Mid", "unknown", "Extra"], ["Mid", "Low"]]
+    for k, names in enumerate(pools):
+        unit = f"enum Sh{k} {{ " + ", ".join(names) + " }"
+        tup = f"enum St{k} {{ " + ", ".join(f"{n}({tys[(j * 5 + k) % len(tys)]})" for j, n in enumerate(names)) + " }"
+        for d in ("FromStr", "IsVariant", "Display", "Debug"):
+            out.append((d, unit))
+        for d in ("IsVariant", "Unwrap", "TryUnwrap", "TryInto", "From", "Display", "Debug", "Add", "Not"):
+            out.append((d, tup))
+        fields = [n.lower() + ("_" if n.lower() in [m.lower() for m in names[:j]] else "") for j, n in enumerate(names)]
+        named = f"struct Sn{k} {{ " + ", ".join(f"{f}: {tys[(j * 7 + k) % len(tys)]}" for j, f in enumerate(fields)) + " }"
+        for d in ("Debug", "Constructor", "From", "Into", "Add", "Mul", "AddAssign", "Not", "Sum"):
+            out.append((d, named))
     return out
 
 
